@@ -280,6 +280,16 @@ func init() {
 		}
 		return nil
 	}
+	// verifMapOrders(false): iterate maps in insertion order from here on (used around the harness's own
+	// invariant walks, whose verdict does not depend on the order); true restores the entry's setting
+	h["verifMapOrders"] = func(e *Exec, c *frame, fn *ssa.Function, a []Value) Value {
+		if a[0].(*Term).IsTrue() {
+			e.mapOrderAll = e.cfg.MapOrderAll
+		} else {
+			e.mapOrderAll = false
+		}
+		return nil
+	}
 	h["verifEvent"] = func(e *Exec, c *frame, fn *ssa.Function, a []Value) Value {
 		e.event(strArg(e, a[0]))
 		return nil
